@@ -22,23 +22,26 @@ def main():
     import atexit
     atexit.register(lambda: shutil.rmtree(base,ignore_errors=True))
     items = [(p, os.path.basename(p), None) for p in pats] + [(sp, sid+'-seed', prop) for sp, sid, prop in seeds]
-    for p, name, sprop in items:
-        if only and not any(name.startswith(o) or o in name for o in only): continue
+    def run_one(item):
+        p, name, sprop = item
+        lines=[]
+        good=True
         if sprop is not None:
             prop, obl = sprop, ''
         else:
             hdr=open(p).read().split('\n')
             exp=[l for l in hdr if l.startswith('# expect:')]
             if not exp:
-                print('SKIP (no expect)',name); continue
+                return name, True, ['SKIP (no expect) '+name]
             prop,obl = tuple(exp[0].split()[2:4])
         d=tempfile.mkdtemp(prefix='govc-st-',dir='/var/tmp')
+        vd=tempfile.mkdtemp(prefix='govc-st-verif-',dir='/var/tmp')
         try:
             subprocess.run(['rsync','-a',base+'/',d+'/'],check=True)
             r=subprocess.run(['patch','-p1','-s','-d',d,'-i',p],capture_output=True,text=True)
             if r.returncode!=0:
-                print('FAIL (patch does not apply)',name,r.stdout[-300:]); ok=False; continue
-            cmd=[V+'/bin/govc','check','-prop',prop,'-repo',d,'-no-evidence','-verif','/var/tmp/govc-st-verif']
+                return name, False, ['FAIL (patch does not apply) '+name+' '+r.stdout[-300:]]
+            cmd=[V+'/bin/govc','check','-prop',prop,'-repo',d,'-no-evidence','-verif',vd]
             # obligations are generated per function: when the expected obligation names a
             # function, only that function's obligations are generated (same verdict, much faster)
             fn = obl.split('/')[0].split('.')[-1] if obl else ''
@@ -55,15 +58,23 @@ def main():
                 with open(os.environ['SELFTEST_LOG'],'a') as f:
                     for l in allv: f.write(name+'\t'+l+'\n')
             if hit:
-                print('ok   %-45s -> %s'%(name, re.search(r'obligation=(\S+)',hit[0]).group(1)))
+                lines.append('ok   %-45s -> %s'%(name, re.search(r'obligation=(\S+)',hit[0]).group(1)))
             else:
-                ok=False
-                print('MISS %-45s expected %s %s; got %d violations; exit %d'%(name,prop,obl,len(allv),r.returncode))
-                for l in allv[:3]: print('      ',l[:200])
-                if not allv: print('      ',out[-400:])
-            results.append((name,bool(hit)))
+                good=False
+                lines.append('MISS %-45s expected %s %s; got %d violations; exit %d'%(name,prop,obl,len(allv),r.returncode))
+                for l in allv[:3]: lines.append('       '+l[:200])
+                if not allv: lines.append('       '+out[-400:])
+            return name, good, lines
         finally:
             shutil.rmtree(d,ignore_errors=True)
-            shutil.rmtree('/var/tmp/govc-st-verif',ignore_errors=True)
+            shutil.rmtree(vd,ignore_errors=True)
+    todo=[it for it in items if not only or any(it[1].startswith(o) or o in it[1] for o in only)]
+    from concurrent.futures import ThreadPoolExecutor
+    jobs=int(os.environ.get('SELFTEST_JOBS','3'))
+    with ThreadPoolExecutor(max_workers=jobs) as ex:
+        for name, good, lines in ex.map(run_one, todo):
+            for l in lines: print(l, flush=True)
+            if not good: ok=False
+            results.append((name,good))
     sys.exit(0 if ok else 1)
 main()
